@@ -558,7 +558,7 @@ func tamper(rt *rapid.T, nodes *[]*wmpt.PersistNodeBase, other []*wmpt.PersistNo
 
 func TestProofsSoundAndComplete(t *testing.T) {
 	// the weight-shift forgery, pinned
-	ev.Rapid(t, 3000, 40000)
+	ev.Rapid(t, 10000, 40000)
 	allowReweight := !ev.Known(findReweight)
 	if !allowReweight {
 		ev.Excluded(findReweight + ": the tamper kind 'move weight between children of a branch keeping the sum' is not drawn")
